@@ -43,6 +43,8 @@ def classify_fault(rec, info):
 def run_config(prop, cfg, tier, seed):
     """runs in a worker process; returns a result dict"""
     t0 = time.time()
+    if tier == 'thorough': os.environ.setdefault('FPSYM_CROSSCHECK', '2')   # per path class: two queries are also given to cvc5
+    os.environ['FPSYM_TMP'] = os.path.join(build.BUILD, 'work')
     res = {'config': cfg.name, 'harness': cfg.harness, 'args': cfg.args, 'paths': 0, 'obligations': 0, 'discharged': 0, 'nontrivial': 0,
            'checks': 0, 'problems': [], 'inconclusive': [], 'assumed_away': 0, 'coverage_complete': False, 'samples': [], 'notes': {},
            'methods': {}, 'translator_validated': None, 'max_atoms': 0, 'symbols': 0}
@@ -114,6 +116,7 @@ def run_config(prop, cfg, tier, seed):
         ex.run(handle)
     except Exception as e:
         res['inconclusive'].append({'what': 'driver exception', 'detail': traceback.format_exc()[-2000:]})
+    if ex.stats.get('cvc5_disagree', 0): res['inconclusive'].append({'what': 'z3 and cvc5 disagree on %d queries' % ex.stats['cvc5_disagree']})
     res['coverage_complete'] = ex.coverage_complete; res['bands'] = ex.bands; res['cover_unknown'] = ex.cover_unknown; res['infeasible_branches'] = ex.infeasible; res['diverged'] = ex.diverged; res['time_budget_hit'] = ex.budget_hit
     res['stats'] = ex.stats
     # replay of every problem on the plain (un-instrumented) build
@@ -306,6 +309,7 @@ def write_evidence(prop, tier, seed, results, meta, wall, nviol, errors, known_i
         'queries_discharged': stats.get('queries', 0), 'solver_time_s': round(stats.get('solver_s', 0.0), 2),
         'native_runs': stats.get('runs', 0), 'native_run_time_s': round(stats.get('run_s', 0.0), 2),
         'decision_methods': methods,
+        'second_solver_cvc5': {'queries': stats.get('cvc5_queries', 0), 'agree': stats.get('cvc5_agree', 0), 'disagree': stats.get('cvc5_disagree', 0), 'no_answer': stats.get('cvc5_unknown', 0)},
         'translator_validated_configs': sum(1 for r in results if r.get('translator_validated')),
         'traces_validated_against_impl': sum(1 for r in results if r.get('translator_validated')),
         'max_rss_kb': max([r.get('max_rss_kb', 0) for r in results] + [0]),
